@@ -13,15 +13,25 @@ def run(chk):
     rnd = [G.random_formula(chk.rng, 3, ['v0', 'v1'], wild=('w',), doms=('d',)) for _ in range(60 if thorough else 10)]
     P0, P1 = ('prop', 'v0'), ('prop', 'v1')
     taut = [('true',), ('EF', ('true',)), ('AG', ('or', P0, ('not', P0))), ('forall', 'x', None, ('or', ('EF', ('var', 'x')), ('not', ('EF', ('var', 'x'))))), ('iff', P0, P0), ('false',), ('not', ('true',))]
-    forms = taut + core + rnd
+    sib = G.siblings(['v0', 'v1'])
+    forms = taut + sib + core + rnd
     for inst in UC.instances(['U2', 'C2'] + (['M2'] if thorough else [])):
         for f in forms:
             d = S.quant_depth(f)
             per_k = {}
             for k in (d, d + 1, d + 2):
-                sess = UC.Session(inst, k, [{'phis': [f], 'entry': 'ext'}, {'phis': [f], 'entry': 'ext_dirty'}], plain=True)
+                plain_f = not (S.labels(f)[0] | S.labels(f)[1])
+                # the plain (non-extended) entry points take the text with a distinct user-given name per quantifier occurrence
+                ut = S.show(S.distinct_names(f))
+                extra = [{'phis': [], 'formulas': [ut], 'entry': 'formula'}, {'phis': [], 'formulas': [ut], 'entry': 'formula_dirty'}] if plain_f else []
+                sess = UC.Session(inst, k, [{'phis': [f], 'entry': 'ext'}, {'phis': [f], 'entry': 'ext_dirty'}] + extra, plain=True)
                 san, raw = sess.first(0), sess.first(1)
                 name = f'C15/E-UNI {inst.name} k={k} (depth {d}): {S.show(f)}'
+                if plain_f:
+                    nm2 = f'C15/native {inst.name} k={k} (depth {d}): model_check_formula(_dirty) on {ut!r} == extended entry points'
+                    ok = san is not None and raw is not None and sess.first(2) == san and sess.first(3) == raw
+                    chk.obligation(nm2, 'native', 'holds' if ok else 'violated', 0.0, False)
+                    if not ok: chk.violation(nm2, 'plain-entry', {'instance': inst.name, 'aeon': inst.aeon, 'formula': ut, 'k': k, 'answers': [{kk: vv for kk, vv in r.items() if kk != 'ok'} or 'different set' for r in sess.runs[2:4]]}, f'k={k}: the plain entry points answer {str([r.get("err") or r.get("panic") or "a different set" for r in sess.runs[2:4]])[:300]} for {ut!r}')
                 if san is None or raw is None:
                     chk.obligation(name, 'E-UNI', 'violated'); chk.violation(name, 'sanitize-error', {'instance': inst.name, 'aeon': inst.aeon, 'formula': S.show(f), 'k': k, 'answers': sess.runs}, f'k={k}: {sess.runs}'); continue
                 per_k[k] = san
@@ -47,6 +57,12 @@ def run(chk):
     # E-MIR: sanitising entry point vs raw entry point, k = depth and depth + 1
     tasks = []
     fs = c01.dispatch_formulas()[::2 if not thorough else 1]
+    for f in sib:
+        d = S.quant_depth(f)
+        if d > 1 and not thorough: continue
+        # plain string entry points, user-given names distinct per occurrence, exactly `depth` variable sets
+        for e in ('multi', 'formula_dirty'):
+            tasks.append({'n': 2, 'k': d, 'c': 0, 'entry': e, 'phis': [f], 'texts': [S.show(S.distinct_names(f))]})
     for f in fs:
         d = S.quant_depth(f)
         if d > 1: continue
